@@ -55,6 +55,7 @@ var (
 	filePool = [][2]string{
 		{"etc", "d"}, {"etc/app.conf", "f"}, {"bin/app", "f"}, {"data", "d"}, {"data/a.txt", "f"}, {"data/b.txt", "f"},
 		{"README", "f"}, {"layer2", "f"}, {"tmp/.wh.cache", "w"}, {"data/.wh..wh..opq", "w"}, {"lib/link", "l"}, {"dir/inner.tar", "t"},
+		{"bin/hard", "h"}, {"opt/a-very-long-directory-name-that-does-not-fit-into-a-ustar-header/and-another-quite-long-component/with-a-file-name-longer-than-one-hundred-characters.txt", "f"},
 	}
 	contentPool  = []string{"", "hello\n", "key=value\n", "#!/bin/sh\nexit 0\n", "0123456789abcdef0123456789abcdef"}
 	artTypePool  = []string{"application/vnd.example.sbom", "application/vnd.example.sig"}
@@ -68,7 +69,7 @@ var (
 // FileSpec is one entry of a layer tar.
 type FileSpec struct {
 	Name    string `json:"name"`
-	Type    string `json:"type"` // f d w l t
+	Type    string `json:"type"` // f d w l t h(ard link)
 	Content string `json:"content,omitempty"`
 	Big     int    `json:"big,omitempty"` // >0: content is a repeated pattern of this many bytes
 	MTime   int    `json:"mtime"`         // index into timeTable
@@ -84,6 +85,8 @@ type LayerSpec struct {
 	Comp    string     `json:"comp"`              // none | gzip | zstd
 	Data    bool       `json:"data,omitempty"`    // descriptor carries inline data
 	Foreign bool       `json:"foreign,omitempty"` // foreign / non-distributable media type with urls (blob also stored)
+	// ForeignAbsent: the foreign layer's content is NOT stored in the source repository (a truly external layer)
+	ForeignAbsent bool `json:"foreign_absent,omitempty"`
 }
 
 // HistSpec is one history entry.
@@ -93,6 +96,7 @@ type HistSpec struct {
 	Created   int    `json:"created"` // index into timeTable
 	Author    string `json:"author,omitempty"`
 	Comment   string `json:"comment,omitempty"`
+	NoCreated bool   `json:"no_created,omitempty"` // the entry has no created field (optional in the image spec)
 }
 
 // ImageSpec is one platform image.
@@ -112,6 +116,7 @@ type ImageSpec struct {
 	ConfigData bool        `json:"config_data,omitempty"` // config descriptor carries inline data
 	UseBase    bool        `json:"use_base,omitempty"`    // layers/history start with the (old) base image
 	Pretty     bool        `json:"pretty,omitempty"`      // config and manifest are indented JSON (not regclient's canonical form)
+	NoMTField  bool        `json:"no_mt_field,omitempty"` // OCI manifest body without the (optional) mediaType field
 }
 
 // BaseSpec describes the old and the new base image (always on registry host A, repo lib/base).
@@ -151,6 +156,8 @@ type OptSpec struct {
 	Layer      *LayerSpec `json:"layer,omitempty"`
 	MT         string     `json:"mt,omitempty"`
 	Plat       string     `json:"plat,omitempty"`
+	Stream     bool       `json:"stream,omitempty"`    // layer-add: the tar reader is not seekable (regctl --layer-add dir=...)
+	BaseSelf   bool       `json:"base_self,omitempty"` // time options: BaseRef names the source image itself
 }
 
 // Case is one generated scenario.
@@ -169,8 +176,49 @@ type Case struct {
 	RefAPI2     bool        `json:"ref_api2"` // second registry implements the referrers API
 	Mode        string      `json:"mode"`     // normal | noop (generator intent only; the oracle re-derives)
 	// AllTimeLabel: generator intent only (every image got the created label); not read by build or oracle
-	AllTimeLabel bool `json:"all_time_label,omitempty"`
-	Program     []OptSpec   `json:"program"`
+	AllTimeLabel bool      `json:"all_time_label,omitempty"`
+	Program      []OptSpec `json:"program"`
+	// dimensions added by the generator-domain audit
+	Artifact *ArtSpec  `json:"artifact,omitempty"` // the source is an OCI artifact manifest (Images[0] is then not materialised)
+	Nested   bool      `json:"nested,omitempty"`   // the index is wrapped in an outer index
+	IdxNoMT  bool      `json:"idx_no_mt,omitempty"`
+	SrcForm  string    `json:"src_form,omitempty"`  // "" tag | digest | tag+digest
+	BaseLoc  string    `json:"base_loc,omitempty"`  // "" other repo on host A | src-repo | host2
+	TgtPre   string    `json:"tgt_pre,omitempty"`   // "" | stale-tag | stale-digest
+	CancelAt int       `json:"cancel_at,omitempty"` // >0: the context is cancelled when the k-th request arrives; -1: cancelled before the call
+	Chain    []OptSpec `json:"chain,omitempty"`     // second program applied to the result with the same client
+	HasChain bool      `json:"has_chain,omitempty"`
+	FeatA    FeatSpec  `json:"feat_a"`
+	FeatB    FeatSpec  `json:"feat_b"`
+}
+
+// ArtSpec is an artifact source.
+type ArtSpec struct {
+	ArtifactType string      `json:"artifact_type"`
+	ConfigMT     string      `json:"config_mt"` // empty (application/vnd.oci.empty.v1+json) | custom
+	Blobs        []string    `json:"blobs"`
+	Annots       [][2]string `json:"annots,omitempty"`
+}
+
+// FeatSpec is the generated part of a registry feature set.
+type FeatSpec struct {
+	MountGrant   bool `json:"mount_grant"`
+	AnonMount    int  `json:"anon_mount"`
+	HeadNoDigest bool `json:"head_no_digest"`
+	LocStyle     int  `json:"loc_style"`
+	TagDelete    bool `json:"tag_delete"`
+	ChunkMin     int  `json:"chunk_min,omitempty"`
+}
+
+func genFeat(t *rapid.T, label string) FeatSpec {
+	return FeatSpec{
+		MountGrant:   rapid.Bool().Draw(t, label+"_mount"),
+		AnonMount:    rapid.SampledFrom([]int{0, 0, 201, 405}).Draw(t, label+"_anon"),
+		HeadNoDigest: rapid.IntRange(0, 3).Draw(t, label+"_hnd") == 0,
+		LocStyle:     rapid.IntRange(0, 3).Draw(t, label+"_loc"),
+		TagDelete:    rapid.Bool().Draw(t, label+"_tagdel"),
+		ChunkMin:     rapid.SampledFrom([]int{0, 0, 0, 64, 4096}).Draw(t, label+"_chunkmin"),
+	}
 }
 
 var tgtModes = []string{"default", "default", "tag", "tag", "replace", "other-tag", "other-tag", "other-digest", "host2", "cross", "cross"}
@@ -199,6 +247,9 @@ func subsetStr(t *rapid.T, pool []string, label string) []string {
 
 func genFiles(t *rapid.T, label string, allowInner bool) []FileSpec {
 	n := rapid.IntRange(1, 4).Draw(t, label+"_nfiles")
+	if rapid.IntRange(0, 29).Draw(t, label+"_emptytar") == 0 {
+		return []FileSpec{} // a tar without entries (an "empty" layer as old builders emit it)
+	}
 	idx := rapid.Permutation(intRange(len(filePool))).Draw(t, label+"_perm")
 	var out []FileSpec
 	for _, i := range idx {
@@ -213,7 +264,7 @@ func genFiles(t *rapid.T, label string, allowInner bool) []FileSpec {
 		switch fp[1] {
 		case "f":
 			if rapid.IntRange(0, 7).Draw(t, label+"_big") == 0 {
-				f.Big = rapid.SampledFrom([]int{600, 3000, 9000}).Draw(t, label+"_bigsz")
+				f.Big = rapid.SampledFrom([]int{600, 3000, 9000, 32768, 40000, 140000}).Draw(t, label+"_bigsz")
 			} else {
 				f.Content = rapid.SampledFrom(contentPool).Draw(t, label+"_content")
 			}
@@ -260,6 +311,7 @@ func genHist(t *rapid.T, label string, empty bool, seq int) HistSpec {
 	} else {
 		h.CreatedBy = rapid.SampledFrom(createdPool).Draw(t, label+"_hby")
 	}
+	h.NoCreated = rapid.IntRange(0, 24).Draw(t, label+"_hnocreated") == 0
 	// a unique suffix makes every entry identifiable (history alignment oracle)
 	h.CreatedBy += fmt.Sprintf(" #%s.%d", label, seq)
 	return h
@@ -284,11 +336,10 @@ func genAlignedHist(t *rapid.T, label string, n int, trailing bool) []HistSpec {
 
 func genImage(t *rapid.T, label, family, arch string, hasBase bool) ImageSpec {
 	im := ImageSpec{Family: family, Arch: arch}
-	minL := 1
-	if hasBase {
-		minL = 0
+	n := rapid.IntRange(1, 4).Draw(t, label+"_nlayers")
+	if rapid.IntRange(0, 14).Draw(t, label+"_nolayers") == 0 || (hasBase && rapid.IntRange(0, 3).Draw(t, label+"_onlybase") == 0) {
+		n = 0
 	}
-	n := rapid.IntRange(minL, 4).Draw(t, label+"_nlayers")
 	for i := 0; i < n; i++ {
 		ll := fmt.Sprintf("%s_l%d", label, i)
 		if i > 0 && rapid.IntRange(0, 7).Draw(t, ll+"_dup") == 0 {
@@ -303,6 +354,7 @@ func genImage(t *rapid.T, label, family, arch string, hasBase bool) ImageSpec {
 			if rapid.IntRange(0, 11).Draw(t, ll+"_foreign") == 0 && !(family == "docker" && l.Comp != "gzip") {
 				l.Foreign = true
 				l.Data = false
+				l.ForeignAbsent = rapid.IntRange(0, 2).Draw(t, ll+"_foreignabsent") == 0
 			}
 		}
 		im.Layers = append(im.Layers, l)
@@ -322,6 +374,7 @@ func genImage(t *rapid.T, label, family, arch string, hasBase bool) ImageSpec {
 	im.Volumes = subsetStr(t, volPool, label+"_vol")
 	im.ConfigData = rapid.IntRange(0, 9).Draw(t, label+"_cfgdata") == 0
 	im.Pretty = rapid.Bool().Draw(t, label+"_pretty")
+	im.NoMTField = family == "oci" && rapid.IntRange(0, 9).Draw(t, label+"_nomt") == 0
 	if hasBase {
 		im.UseBase = rapid.IntRange(0, 9).Draw(t, label+"_usebase") != 0
 	}
@@ -389,7 +442,9 @@ func gen(t *rapid.T) Case {
 		if c.Index == "oci" || rapid.IntRange(0, 5).Draw(t, "dockerlistannot") == 0 {
 			c.IndexAnnots = subsetPairs(t, annotPool, "idxann")
 		}
-		c.ChildData = rapid.IntRange(0, 39).Draw(t, "childdata") == 0
+		c.ChildData = rapid.IntRange(0, 9).Draw(t, "childdata") == 0
+		c.IdxNoMT = c.Index == "oci" && rapid.IntRange(0, 9).Draw(t, "idxnomt") == 0
+		c.Nested = rapid.IntRange(0, 11).Draw(t, "nested") == 0
 		c.IndexPretty = rapid.Bool().Draw(t, "indexpretty")
 		c.Attest = rapid.IntRange(0, 4).Draw(t, "attest") == 0
 	}
@@ -403,6 +458,36 @@ func gen(t *rapid.T) Case {
 		}
 		c.Referrers = append(c.Referrers, r)
 	}
+	// audit dimensions
+	if c.Index == "" && c.Base == nil && rapid.IntRange(0, 14).Draw(t, "artifact") == 0 {
+		a := &ArtSpec{ArtifactType: rapid.SampledFrom(artTypePool).Draw(t, "art_type"), ConfigMT: rapid.SampledFrom([]string{"empty", "custom"}).Draw(t, "art_cfg"),
+			Annots: subsetPairs(t, annotPool, "art_ann")}
+		for i, n := 0, rapid.IntRange(0, 2).Draw(t, "art_nblobs"); i < n; i++ {
+			a.Blobs = append(a.Blobs, rapid.SampledFrom([]string{"payload-a", "payload-b", "{}"}).Draw(t, "art_blob")+fmt.Sprint(i))
+		}
+		c.Artifact = a
+	}
+	c.SrcForm = rapid.SampledFrom([]string{"", "", "", "", "digest", "tag+digest"}).Draw(t, "srcform")
+	if c.Base != nil {
+		c.BaseLoc = rapid.SampledFrom([]string{"", "", "src-repo", "host2"}).Draw(t, "baseloc")
+		if c.Src == "layout" && c.BaseLoc == "src-repo" {
+			c.BaseLoc = ""
+		}
+	}
+	switch c.Tgt {
+	case "tag", "other-tag", "host2", "cross":
+		if rapid.IntRange(0, 5).Draw(t, "tgtpre") == 0 {
+			c.TgtPre = "stale-tag"
+		}
+	case "other-digest":
+		if rapid.IntRange(0, 2).Draw(t, "tgtpre") == 0 {
+			c.TgtPre = "stale-digest"
+		}
+	}
+	c.FeatA, c.FeatB = genFeat(t, "feata"), genFeat(t, "featb")
+	if rapid.IntRange(0, 19).Draw(t, "cancel") == 0 {
+		c.CancelAt = rapid.SampledFrom([]int{-1, 1, 2, 3, 5, 8, 13, 21, 34}).Draw(t, "cancelat")
+	}
 	// program
 	c.Mode = "normal"
 	if rapid.IntRange(0, 5).Draw(t, "noopmode") == 0 {
@@ -414,6 +499,26 @@ func gen(t *rapid.T) Case {
 	}
 	for i := 0; i < nopt; i++ {
 		c.Program = append(c.Program, genOpt(t, &c, fmt.Sprintf("o%d", i)))
+	}
+	// a second program for the result, run with the same client (warm caches, sha512 / converted sources)
+	if c.CancelAt == 0 && rapid.IntRange(0, 3).Draw(t, "haschain") == 0 {
+		c.HasChain = true
+		save := c.Mode
+		c.Mode = "normal"
+		for i, n := 0, rapid.IntRange(0, 2).Draw(t, "nchain"); i < n; i++ {
+			c.Chain = append(c.Chain, genOpt(t, &c, fmt.Sprintf("c%d", i)))
+		}
+		c.Mode = save
+	}
+	// documented precondition of external-urls-rm: the layer content was copied into the repository first
+	for _, o := range append(append([]OptSpec{}, c.Program...), c.Chain...) {
+		if o.Kind == "external-urls-rm" {
+			for i := range c.Images {
+				for j := range c.Images[i].Layers {
+					c.Images[i].Layers[j].ForeignAbsent = false
+				}
+			}
+		}
 	}
 	return c
 }
@@ -491,6 +596,9 @@ func genOptTime(t *rapid.T, c *Case, label string, o *OptSpec) {
 		o.BaseLayers = rapid.SampledFrom([]int{1, 2, 99}).Draw(t, label+"_baselayers")
 	case 1:
 		o.BaseRef = c.Base != nil
+		if !o.BaseRef {
+			o.BaseSelf = true
+		}
 	}
 }
 
@@ -658,7 +766,11 @@ func genOpt(t *rapid.T, c *Case, label string) OptSpec {
 	case "layer-add":
 		l := LayerSpec{Files: genFiles(t, label+"_add", false)}
 		o.Layer = &l
+		o.Stream = rapid.IntRange(0, 2).Draw(t, label+"_stream") == 0
 		fam := im0.Family
+		if rapid.IntRange(0, 7).Draw(t, label+"_crossfam") == 0 {
+			fam = map[string]string{"oci": "docker", "docker": "oci"}[fam]
+		}
 		mts := map[string][]string{
 			"oci":    {"", "", "application/vnd.oci.image.layer.v1.tar", "application/vnd.oci.image.layer.v1.tar+gzip", "application/vnd.oci.image.layer.v1.tar+zstd"},
 			"docker": {"", "", "application/vnd.docker.image.rootfs.diff.tar", "application/vnd.docker.image.rootfs.diff.tar.gzip", "application/vnd.docker.image.rootfs.diff.tar.zstd"},
@@ -762,6 +874,12 @@ func (c Case) shape() string {
 	if c.Base != nil {
 		sb.WriteString("+base")
 	}
-	sb.WriteString("|" + c.Src + ">" + c.Tgt)
+	if c.Artifact != nil {
+		sb.WriteString("+artifact:" + c.Artifact.ConfigMT)
+	}
+	if c.Nested && c.Index != "" {
+		sb.WriteString("+nested")
+	}
+	sb.WriteString("|" + c.Src + c.SrcForm + ">" + c.Tgt + c.TgtPre)
 	return sb.String()
 }
